@@ -306,6 +306,12 @@ class Ctx:
             self.known_hits.setdefault(known["id"], dict(entry=known, n=0, first=what))["n"] += 1
             return
         if len(self.failures) < 50:
+            if len(self.failures) < 2:
+                try:
+                    import calib
+                    case = calib.attach_data(case)
+                except Exception:   # noqa: BLE001  the replay file then carries the description and the seed only
+                    pass
             self.failures.append(dict(what=what, case=case, detail=detail))
 
 
